@@ -4,8 +4,15 @@
   The stop flag is the oracle `stop : Nat → Bool` of the loop model (`Alpaqa/Model/Zerofpr.lean`):
   the value a poll of the atomic flag returns after `t` events.  A flag that is never lowered is a
   *monotone* `stop`; the theorems that need this say so (`Mono stop`), the others hold for every
-  schedule.  Three places poll the flag: the loop head (inside the status chain), the condition of
-  the line-search `while`, and the `if (stop_signal.stop_requested()) continue;` after it.
+  schedule.  Four places poll the flag: the condition of the initial step-size loop, the loop head
+  (inside the status chain), the condition of the line-search `while`, and the
+  `if (stop_signal.stop_requested()) continue;` after it.
+
+  * once the flag is visible the initial step-size loop makes no further call
+    (`zerofpr_init_loop_noop`); with a flag that is never lowered the initialisation ends at tick
+    `≤ max 4 (t₀ + 1)` whatever the number of backtracks still needed (`zerofpr_init_ticks_after_stop`)
+    and the solve then returns from its first loop head, `≤ 4` calls later
+    (`zerofpr_init_interrupted_exits`);
 
   * a stop request visible at a loop-head check ends the solve at that check — no direction call,
     no line search, no further iteration (`zerofpr_stop_at_head_exits`);
@@ -153,6 +160,67 @@ theorem zerofpr_no_further_iteration (P : Problem α) (dir : Direction D α) (pr
   ⟨(zerofpr_stop_at_head_exits P dir pr stop oot x0 y Sig errz0 fuel s hp).2.2.2.1,
    (zerofpr_stop_at_head_exits P dir pr stop oot x0 y Sig errz0 fuel s hp).2.2.2.2.2⟩
 
+/-! ### The initial step-size loop -/
+
+/-- **Once the flag is visible the initial step-size loop makes no further call**: the loop
+    `while (!stop_requested() && L < L_max && qub_violated)` polls the flag first. -/
+theorem zerofpr_init_loop_noop (P : Problem α) (pr : Params α) (stop : Nat → Bool) (f : Nat)
+    (c : Iterate α) (t b : Nat) (h : stop t = true) :
+    initQub P pr stop (f + 1) c t b = (c, t, b, false) :=
+  initQub_stop_noop P pr stop f c t b h
+
+/-- **The initialisation is interruptible**: with a flag that is never lowered and visible from tick
+    `t₀` on, the initialisation ends at tick `≤ max 4 (t₀ + 1)`, whatever the number of step-size
+    backtracks the quadratic upper bound would still ask for (`4` = Lipschitz estimate `≤ 2` + first
+    proximal-gradient step and `ψ(x̂)`, made before the first poll). -/
+theorem zerofpr_init_ticks_after_stop (P : Problem α) (d0 : D) (pr : Params α) (stop : Nat → Bool)
+    (hmono : Mono stop) (t0 : Nat) (h0 : stop t0 = true) (x0 gV : Vec α) (gS : α) (s : St α D)
+    (hi : initState P d0 pr stop x0 gV gS = .inr s) : s.tick ≤ max 4 (t0 + 1) := by
+  have hc : (initLipschitz P pr x0 gV gS).2.2 ≤ 2 := by
+    unfold initLipschitz; simp only []; split_ifs <;> simp
+  unfold initState at hi
+  simp only [] at hi
+  split_ifs at hi
+  injection hi with hi; subst hi
+  simp only []
+  exact Nat.le_trans (initQub_tick_bound P pr stop hmono t0 h0 _ _ _ _) (by omega)
+
+/-- **A solve whose initial step-size loop was cut short returns from its first loop head** (flag
+    never lowered): zero iterations, the single final callback, the initial iterate returned, and at
+    most `4` further calls (the head's `∇ψ(x̂)`, `p̂`, the criterion's unit step, the callback). -/
+theorem zerofpr_init_interrupted_exits (P : Problem α) (dir : Direction D α) (d0 : D)
+    (pr : Params α) (stop : Nat → Bool) (hmono : Mono stop) (oot : Bool)
+    (x0 y Sig errz0 gV : Vec α) (gS : α) (s : St α D)
+    (hi : initState P d0 pr stop x0 gV gS = .inr s) (h : stop s.tick = true) :
+    (run P dir d0 pr stop oot x0 y Sig errz0 gV gS).stats.status ≠ .Busy ∧
+    (run P dir d0 pr stop oot x0 y Sig errz0 gV gS).stats.iterations = 0 ∧
+    (run P dir d0 pr stop oot x0 y Sig errz0 gV gS).final = some s.curr ∧
+    (run P dir d0 pr stop oot x0 y Sig errz0 gV gS).callbacks.length = 1 ∧
+    (run P dir d0 pr stop oot x0 y Sig errz0 gV gS).ticks ≤ s.tick + 4 := by
+  have hg := initState_good P d0 pr stop x0 gV gS s hi
+  have hp : stop (headPollTick pr s) = true := hmono _ _ (by unfold headPollTick; omega) h
+  have he := zerofpr_stop_at_head_exits P dir pr stop oot x0 y Sig errz0 (pr.maxIter + 1) s hp
+  have hx := exitBlock_spec pr (headStep P pr stop oot s).1 (headStep P pr stop oot s).2.1
+    (headStep P pr stop oot s).2.2 x0 y Sig errz0
+  have hs := headStep_same P pr stop oot s
+  have hr : run P dir d0 pr stop oot x0 y Sig errz0 gV gS =
+      mainLoop P dir pr stop oot x0 y Sig errz0 (pr.maxIter + 1 + 1) s := by
+    unfold run; rw [hi]
+  have he' : epsTicks pr.stopCrit ≤ 1 := by cases pr.stopCrit <;> simp [epsTicks]
+  refine ⟨?_, ?_, ?_, ?_, ?_⟩
+  · rw [hr, he.2.2.1, hx.2.1]; exact he.1
+  · rw [hr, he.2.2.2.1]; exact hg.2.1
+  · rw [hr, he.2.2.1, hx.2.2.2.2.1, hs.1]
+  · have ht := he.2.2.2.2.2
+    rw [← hr, hg.2.2.1] at ht
+    have hl := congrArg List.length ht
+    simp only [List.length_tail, List.length_reverse, List.length_nil] at hl
+    have hne : (run P dir d0 pr stop oot x0 y Sig errz0 gV gS).callbacks ≠ [] := by
+      rw [hr, he.2.2.1]; unfold exitBlock; simp
+    have := List.length_pos_iff.mpr hne
+    omega
+  · rw [hr, he.2.2.2.2.1]; unfold headPollTick; omega
+
 /-- Non-vacuity of `Mono`: the schedule the replay uses, `t ≥ stoptick`. -/
 example (k : Nat) : Mono (fun t => decide (t ≥ k)) := by
   intro t t' h1 h2; simp only [decide_eq_true_eq] at *; omega
@@ -171,6 +239,19 @@ example : Mono stopAt9 := by
 example : (exRun stopAt9).stats.status = SolverStatus.Interrupted ∧
     (exRun stopAt9).stats.iterations = 0 ∧ (exRun stopAt9).callbacks.length = 1 ∧
     (exRun stopAt9).ticks = 12 ∧ (exRun (fun _ => false)).ticks = 30 := by
+  decide +kernel
+
+/-- `L_0 = 1/16`: the initial step-size loop would backtrack 4 times; a request landing inside it
+    (flag visible from tick 4, i.e. during the first backtrack) ends it after that backtrack, and the
+    first head returns `Interrupted` at tick 8 = 4 + 4 with the single final callback; undisturbed the
+    solve takes 38 events. -/
+example :
+    let r := fun stop => run exP exDir () { exPr with L0 := 1/16 } stop false [3] [5] [2] [7] [] 0
+    (r (fun t => decide (t ≥ 4))).stats.status = SolverStatus.Interrupted ∧
+    (r (fun t => decide (t ≥ 4))).stats.stepsizeBacktracks = 1 ∧
+    (r (fun t => decide (t ≥ 4))).ticks = 8 ∧ (r (fun t => decide (t ≥ 4))).callbacks.length = 1 ∧
+    (r (fun t => decide (t ≥ 4))).stats.iterations = 0 ∧
+    (r (fun _ => false)).stats.stepsizeBacktracks = 4 ∧ (r (fun _ => false)).ticks = 38 := by
   decide +kernel
 
 end examples
